@@ -333,14 +333,19 @@ def explore_dataset(col, ds, tier):
         # anything else is state leaking between accessor instances (which
         # would also make the deviation runs below meaningless)
         out2, log2, _ = run_history(URLS[0], chunks, srv, {})
-        if log2 != ref_log or out2 != ref_out:
+        if out2 != ref_out:
             col.ev(1, 1, "equiv-bad")
-            col.violation("C14/equiv/fresh-accessor-behaves-differently-the-"
-                          "second-time", dict(base_case, url=URLS[0],
-                                              deviations={}),
-                          "same requests and results from a second fresh "
-                          "accessor", "requests %r... vs %r..." % (
+            col.violation("C14/equiv/fresh-accessor-gives-different-results-"
+                          "the-second-time", dict(base_case, url=URLS[0],
+                                                  deviations={}),
+                          "the same results from a second fresh accessor",
+                          "results differ (requests %r... vs %r...)" % (
                               log2[:4], ref_log[:4]))
+            return
+        if log2 != ref_log:
+            # same results through different requests (e.g. a legitimate
+            # cache): the deviation runs cannot be aligned with a recording
+            col.ev(1, 1, "deviations-skipped/requests-not-repeatable")
             return
         # ---- deviations (first URL spelling)
         url = URLS[0]
